@@ -177,6 +177,7 @@ type Engine struct {
 	killAck     chan struct{}
 	Goroutines  int
 	schedForks  int
+	schedOff    bool
 	Notifies    int
 	race        *raceState
 	raceQ       int
@@ -775,6 +776,7 @@ func (e *Engine) runPath(entry *ssa.Function) {
 	e.raceReset()
 	e.vfs = nil
 	e.schedForks = 0
+	e.schedOff = false
 	e.sol.Push()
 	outcome := "ok"
 	func() {
